@@ -126,3 +126,12 @@ Definition agree (ins : list inp) (overts : list pt) (ocells : list (list nat)) 
   list_eqb pt_eqb (merge_verts ins) overts
   && list_eqb (list_eqb Nat.eqb) (merge_cells ins) ocells
   && list_eqb child_eqb (out_children ins) och.
+
+(* the same comparison for what a later reader of the file sees: children are listed in HDF5 name order there, so the
+   data sets are compared as a set *)
+Definition same_children (l1 l2 : list (nat * bool * vals)) : bool :=
+  Nat.eqb (length l1) (length l2) && forallb (fun x => existsb (child_eqb x) l2) l1 && forallb (fun x => existsb (child_eqb x) l1) l2.
+Definition agree_stored (ins : list inp) (overts : list pt) (ocells : list (list nat)) (och : list (nat * bool * vals)) : bool :=
+  list_eqb pt_eqb (merge_verts ins) overts
+  && list_eqb (list_eqb Nat.eqb) (merge_cells ins) ocells
+  && same_children (out_children ins) och.
